@@ -40,6 +40,8 @@ def build_index(dense, common, readonly=False, reverse=False):
                 big = numpy.full(2 * len(arr) + 1, 0xDEADBEEF, dtype=numpy.uint32)
                 big[1::2][: len(arr)] = arr
                 arr = big[1::2][: len(arr)]
+            elif readonly == "lists":
+                arr = arr.tolist()  # plain Python lists: the constructor converts them (documented, slower path)
             elif readonly:
                 arr.setflags(write=False)
             entries[(int(v),) + hi] = arr
@@ -126,7 +128,7 @@ def cube_specs(draw, max_nd=3, min_nd=0, max_n=40, tails=((), (), (2,), (3,), (1
     mode = draw(st.sampled_from(["inferred", "exact", "padded"]))
     pads = draw(st.lists(st.integers(1, 3), min_size=nd, max_size=nd))
     return {"N": N, "dims": dims, "shape_mode": mode, "pads": pads,
-            "readonly": draw(st.sampled_from([False, False, False, True, "strided"])),
+            "readonly": draw(st.sampled_from([False, False, False, True, "strided", "lists"])),
             "reverse": draw(st.booleans()), "alias": alias}
 
 
